@@ -463,6 +463,28 @@ func c10StickyValueForm(x *chk.R, f *chk.Fn, g *chk.Graph, filter func(ast.Expr)
 	spec := chk.GAnd(can, chk.GOr(noOpinion, wasTrue))
 	okT := g.DominatedAssuming(t, as.Rhs[0], true, spec)
 	okF := g.DominatedAssuming(t, as.Rhs[0], false, chk.GNot(spec))
+	// the map kept with the other polarity (`unready[addr] = unready[addr] || !canServe`: an absent entry reads as "not
+	// unready"): the stored value must be exactly `cannot serve || the earlier opinion was unready`, and the result is true
+	// only for an address whose value is still false
+	inverted, directRead := false, false
+	if !okT || !okF {
+		ast.Inspect(as.Rhs[0], func(n ast.Node) bool {
+			if e, isE := n.(ast.Expr); isE && f.MatchWith("R[A]", e, chk.H("R", f.IsObj(readyMap)), chk.H("A", addr)) != nil {
+				directRead = true
+			}
+			return true
+		})
+		wasSet := chk.GBool(true, lookup(0))
+		if directRead {
+			wasSet = g.GPat(true, "R[A]", chk.H("R", f.IsObj(readyMap)), chk.H("A", addr))
+		}
+		nspec := chk.GOr(chk.GNot(can), wasSet)
+		if g.DominatedAssuming(t, as.Rhs[0], true, nspec) && g.DominatedAssuming(t, as.Rhs[0], false, chk.GNot(nspec)) {
+			inverted, okT, okF = true, true, true
+		} else {
+			directRead = false
+		}
+	}
 	x.Check("hasHealthyEndpoint:true:no-earlier-opinion", t.Pos(), okT, "", "a ready entry can overwrite an earlier `false` for the same address")
 	x.Check("hasHealthyEndpoint:true:can-serve", t.Pos(), okT, "", "an address can be marked ready by an entry that cannot serve")
 	x.Check("hasHealthyEndpoint:false-is-sticky", addrLoop.Pos(), okF && !loopSkipsWithout(g, addrLoop, func(n ast.Node) bool { return n == t.Top }, chk.NoGuard) && !loopHasBreak(g, addrLoop), "", "an entry that cannot serve does not always force its address to false (a later or earlier ready entry wins)")
@@ -476,6 +498,7 @@ func c10StickyValueForm(x *chk.R, f *chk.Fn, g *chk.Graph, filter func(ast.Expr)
 	}) {
 		okRead = chk.InBody(addrLoop, s.Node) && s.Pos() < t.Pos()
 	}
+	okRead = okRead || directRead
 	x.Check("hasHealthyEndpoint:opinion-read-this-iteration", t.Pos(), okRead, "", "the earlier opinion combined with the entry's is not the one recorded for this address")
 	okFl := c10FilterSkips(f, g, filter, ep, epLoop, addrLoop, true) || c10FilterSkips(f, g, filter, ep, epLoop, addrLoop, false)
 	x.Check("hasHealthyEndpoint:filter-applied", epLoop.Pos(), okFl, "", "entries rejected by the node filter still contribute addresses")
@@ -488,7 +511,7 @@ func c10StickyValueForm(x *chk.R, f *chk.Fn, g *chk.Graph, filter func(ast.Expr)
 		if f.IsConstBool(res[0], true) {
 			nt++
 			rs, _ := f.LoopOf(rt.Node).(*ast.RangeStmt)
-			ok := rs != nil && f.Denotes(rs.X, readyMap) && g.Dominated(rt, chk.GBool(true, rangeVal(f, rs)))
+			ok := rs != nil && f.Denotes(rs.X, readyMap) && g.Dominated(rt, chk.GBool(!inverted, rangeVal(f, rs)))
 			x.Check("hasHealthyEndpoint:true-result-needs-ready-address", rt.Pos(), ok, "", "true is returned without an address that is still marked ready")
 		} else if !f.IsConstBool(res[0], false) {
 			x.Fail("hasHealthyEndpoint:return-shape", rt.Pos(), "a return that is not a boolean constant")
